@@ -264,6 +264,7 @@ func Main(h Harness) {
 		only     = flag.String("only", "", "only specs whose name contains this")
 		depth    = flag.Int("depth", 0, "override depth")
 	)
+	xplore.QuietLogs()
 	flag.Parse()
 	specs := h.Specs(*tier)
 	known := map[string]bool{}
